@@ -121,6 +121,11 @@ class Path:
             return True
         if z3.is_false(t):
             return False
+        it = getattr(self, "interp", None)
+        if it is not None and it.loop_stack and not it.in_raise_branch:
+            from . import loops as _loops
+            if any(_loops._term_mentions(t, fr.L) for fr in it.loop_stack):
+                raise Unsupported("iteration-dependent branch inside a summarised loop (needs an explicit invariant)")
         i = len(self.taken)
         if i < len(self.prefix):
             choice = self.prefix[i]
@@ -336,6 +341,8 @@ class Obj:
     def __init__(self, cls, attrs=None):
         self.cls = cls
         self.attrs = dict(attrs or {})
+        A._STAMP[0] += 1
+        self._stamp = A._STAMP[0]
 
     def __repr__(self):
         n = self.cls.name if hasattr(self.cls, "name") else str(self.cls)
@@ -537,6 +544,8 @@ class Interp:
         self.lineno = 0
         self.trace_calls = []
         self.call_log = []            # (callee key, bound args, result) of modular calls on the current path
+        self.loop_stack = []          # generic-iteration frames of summarised loops (loops.py)
+        self.in_raise_branch = 0
 
     # -- modules -----------------------------------------------------------
     def module(self, name):
@@ -938,8 +947,67 @@ class Interp:
             return
         raise Unsupported(f"setattr on {type(obj).__name__}")
 
+    def rebind(self, old, new, env):
+        """replace every reference to list `old` reachable from the environment by `new`"""
+        seen = set()
+
+        def fix_obj(o, depth):
+            if id(o) in seen or depth > 3:
+                return
+            seen.add(id(o))
+            if isinstance(o, Obj):
+                for k, v in list(o.attrs.items()):
+                    if v is old:
+                        o.attrs[k] = new
+                    else:
+                        fix_obj(v, depth + 1)
+            elif isinstance(o, dict):
+                for k, v in list(o.items()):
+                    if v is old:
+                        o[k] = new
+                    else:
+                        fix_obj(v, depth + 1)
+            elif isinstance(o, list):
+                for i, v in enumerate(o):
+                    if v is old:
+                        o[i] = new
+        e = env
+        while e is not None:
+            for k, v in list(e.vars.items()):
+                if v is old:
+                    e.vars[k] = new
+                else:
+                    fix_obj(v, 0)
+            e = e.parent
+
+    def outer_lists(self, env):
+        """ids of list objects reachable from the environment (they exist before the loop starts)"""
+        ids = {}
+        seen = set()
+
+        def walk(o, depth):
+            if id(o) in seen or depth > 3:
+                return
+            seen.add(id(o))
+            if isinstance(o, list):
+                ids[id(o)] = o
+            elif isinstance(o, Obj):
+                for v in o.attrs.values():
+                    walk(v, depth + 1)
+            elif isinstance(o, dict):
+                for v in o.values():
+                    walk(v, depth + 1)
+        e = env
+        while e is not None:
+            for v in e.vars.values():
+                walk(v, 0)
+            e = e.parent
+        return ids
+
     def frame_write(self, obj, name):
         """hook for frame (modifies) checking"""
+        if self.loop_stack and isinstance(obj, Obj) and getattr(obj, "_stamp", 0) <= self.loop_stack[-1].start_stamp:
+            raise Unsupported("attribute write to a pre-existing object inside a summarised loop")
         w = getattr(self, "write_log", None)
         if w is not None:
             w.append((obj, name))
@@ -1113,8 +1181,27 @@ class Interp:
         else:
             raise Unsupported(f"assign target {type(t).__name__}")
 
+    def _loop_store(self, o, k, v):
+        """inside a summarised loop: `a[L] = v` on an array created before the loop is a summarised effect"""
+        fr = self.loop_stack[-1]
+        from . import loops as _loops
+        if o.stamp > fr.start_stamp:
+            return False          # array local to the iteration
+        ks = k if isinstance(k, tuple) else (k,)
+        first = ks[0]
+        is_L = isinstance(first, Sym) and first.t.eq(fr.L)
+        rest_full = all(isinstance(x, slice) and x.start is None and x.stop is None and x.step is None for x in ks[1:])
+        if is_L and rest_full:
+            fr.stores.append((o, v))
+            fr.written.add(id(o))
+            return True
+        raise Unsupported("store into a pre-existing array at an index other than the loop index inside a "
+                          "summarised loop")
+
     def store_subscript(self, o, k, v):
         if isinstance(o, SArr):
+            if self.loop_stack and self._loop_store(o, k, v):
+                return
             A.setitem(o, k, v)
         elif isinstance(o, list):
             if isinstance(k, Sym):
@@ -1140,6 +1227,21 @@ class Interp:
 
     def s_For(self, st, env):
         it = self.eval(st.iter, env)
+        from . import loops as _loops
+        si = _loops.siter(it)
+        if si is not None:
+            n, get = si
+
+            def run_body(x, L):
+                self.assign(st.target, x, env)
+                try:
+                    self.exec_block(st.body, env)
+                except (BreakEx, ContinueEx, ReturnEx):
+                    raise Unsupported("break / continue / return inside a summarised loop")
+            _loops.summarize(self, n, get, run_body, env)
+            if st.orelse:
+                self.exec_block(st.orelse, env)
+            return
         broke = False
         for x in self.iterate(it):
             self.assign(st.target, x, env)
@@ -1515,6 +1617,8 @@ class Interp:
         return self.subscript(o, k)
 
     def subscript(self, o, k):
+        if self.loop_stack and id(o) in self.loop_stack[-1].written:
+            raise Unsupported("read of a container written by the same summarised loop (loop-carried dependence)")
         if isinstance(o, SArr):
             if self.safety and not self.spec:
                 self._index_safety(o, k)
@@ -1672,12 +1776,38 @@ class Interp:
                     rec(i + 1, e2)
         rec(0, env)
 
+    def _comp_symbolic(self, n, env):
+        """single-generator comprehension over a symbolic-length sequence -> SList (map)"""
+        if len(n.generators) != 1:
+            return None
+        g = n.generators[0]
+        it = self.eval(g.iter, env)
+        from . import loops as _loops
+        si = _loops.siter(it)
+        if si is None:
+            return ("concrete", it)
+        if g.ifs:
+            raise Unsupported("filtering comprehension over a symbolic-length sequence")
+        cnt, get = si
+
+        def run_body(x, L):
+            e2 = Env({}, env)
+            self.assign(g.target, x, e2)
+            return self.eval(n.elt, e2)
+        return ("symbolic", _loops.summarize(self, cnt, get, run_body, env, collect_value=True))
+
     def e_ListComp(self, n, env):
+        r = self._comp_symbolic(n, env) if len(n.generators) == 1 else None
+        if r is not None and r[0] == "symbolic":
+            return r[1]
         out = []
         self._comp(n.generators, env, lambda e: out.append(self.eval(n.elt, e)))
         return out
 
     def e_GeneratorExp(self, n, env):
+        r = self._comp_symbolic(n, env) if len(n.generators) == 1 else None
+        if r is not None and r[0] == "symbolic":
+            return r[1]
         out = []
         self._comp(n.generators, env, lambda e: out.append(self.eval(n.elt, e)))
         return GenV(out)
